@@ -102,6 +102,33 @@ impl TokenCache {
         None
     }
 
+    /// Attempts to get a cached reader token that was issued by `manager`.
+    ///
+    /// The cache is per thread and therefore shared by every manager used on the thread; a
+    /// token cached through another manager is left in place and reported as a miss, so a
+    /// manager never hands out (and never loses count of) a token it did not issue.
+    pub fn get_reader_token_for(&mut self, manager: &VersionManager) -> Option<ReaderToken> {
+        match &self.cached_reader {
+            Some(token) if !token.issued_by(manager) => {
+                self.stats.reader_cache_misses += 1;
+                None
+            }
+            _ => self.get_reader_token(),
+        }
+    }
+
+    /// Attempts to get a cached writer token that was issued by `manager`
+    /// (see [`TokenCache::get_reader_token_for`]).
+    pub fn get_writer_token_for(&mut self, manager: &VersionManager) -> Option<WriterToken> {
+        match &self.cached_writer {
+            Some(token) if !token.issued_by(manager) => {
+                self.stats.writer_cache_misses += 1;
+                None
+            }
+            _ => self.get_writer_token(),
+        }
+    }
+
     /// Caches a reader token for future reuse.
     pub fn cache_reader_token(&mut self, token: ReaderToken) {
         self.cached_reader = Some(token);
@@ -265,7 +292,7 @@ impl TokenManager {
 
         // Try to get a cached token first
         let token = TOKEN_CACHE.with(|cache| {
-            cache.borrow_mut().get_reader_token()
+            cache.borrow_mut().get_reader_token_for(&self.version_manager)
         });
 
         let token = if let Some(cached_token) = token {
@@ -299,7 +326,7 @@ impl TokenManager {
 
         // Try to get a cached token first
         let token = TOKEN_CACHE.with(|cache| {
-            cache.borrow_mut().get_writer_token()
+            cache.borrow_mut().get_writer_token_for(&self.version_manager)
         });
 
         let token = if let Some(cached_token) = token {
